@@ -455,7 +455,8 @@ impl Track {
         return l;
     }
     pub fn write_cc_on_time(&mut self, cc_no: isize, ia: Vec<isize>) {
-        let freq = self.cc_on_time_freq;
+        let freq = if self.cc_on_time_freq <= 0 { 1 } else { self.cc_on_time_freq };
+        let mut seg_start = self.timepos; // each segment begins where the previous one ended
         for i in 0..ia.len() / 3 {
             let low = ia[i*3+0];
             let high = ia[i*3+1];
@@ -465,14 +466,16 @@ impl Track {
                 if (j % freq) == 0 {
                     let v = (high - low) as f32 * (j as f32 / len as f32) + low as f32;
                     let v = value_range(0, v as isize, 127);
-                    let e = Event::cc(self.timepos + j, self.channel, cc_no, v);
+                    let e = Event::cc(seg_start + j, self.channel, cc_no, v);
                     self.events.push(e);
                 }
             }
+            if len > 0 { seg_start += len; }
         }
     }
     pub fn write_pb_on_time(&mut self, is_big: isize, ia: Vec<isize>, timebase: isize) {
-        let freq = timebase / 32;
+        let freq = if timebase / 32 <= 0 { 1 } else { timebase / 32 };
+        let mut seg_start = self.timepos; // each segment begins where the previous one ended
         for i in 0..ia.len() / 3 {
             let mut low = ia[i*3+0];
             let mut high = ia[i*3+1];
@@ -489,10 +492,11 @@ impl Track {
                 if (j % freq) == 0 {
                     let v = (high - low) as f32 * (j as f32 / len as f32) + low as f32;
                     let v = value_range(0, v as isize, 0x7f7f);
-                    let e = Event::pitch_bend(self.timepos + j, self.channel, v);
+                    let e = Event::pitch_bend(seg_start + j, self.channel, v);
                     self.events.push(e);
                 }
             }
+            if len > 0 { seg_start += len; }
         }
     }
     pub fn remove_cc_on(&mut self, no: isize) {
